@@ -1,0 +1,13 @@
+//go:build verif
+
+// Machine-checked contracts for package token (comment-only; see /verif/DESIGN.md).
+
+package token
+
+//@ func WithKeyID
+//@   property C15
+//@   modifies nothing
+//@
+//@ func KeyID
+//@   property C15
+//@   modifies nothing
